@@ -108,6 +108,8 @@ fn scenario_programs() -> Vec<(&'static str, Program, Vec<f64>)> {
         ("scenario (1+x/n)^n powf n=-2^32", Program { n_inputs: 1, steps: vec![st(DivF(-4294967296.0), vec![0]), st(AddF(1.0), vec![1]), st(Powf(-4294967296.0), vec![2])] }, vec![-0.75]),
         ("scenario (1+x/n)^n powi n=2^30", Program { n_inputs: 1, steps: vec![st(DivF(1073741824.0), vec![0]), st(AddF(1.0), vec![1]), st(Powi(1 << 30), vec![2])] }, vec![1.5]),
         ("scenario x tanh(40x)", Program { n_inputs: 1, steps: vec![st(MulF(40.0), vec![0]), st(Tanh, vec![1]), st(Mul, vec![0, 2])] }, vec![10.0]),
+        ("scenario acos(1 - x 2^-26)", Program { n_inputs: 1, steps: vec![st(MulF(-1.4901161193847656e-8), vec![0]), st(AddF(1.0), vec![1]), st(Acos, vec![2])] }, vec![1.5]),
+        ("scenario asin(x 2^-26 - 1)", Program { n_inputs: 1, steps: vec![st(MulF(1.4901161193847656e-8), vec![0]), st(AddF(-1.0), vec![1]), st(Asin, vec![2])] }, vec![1.5]),
         ("scenario sqrt(x x y) / y", Program { n_inputs: 2, steps: vec![st(Product(3), vec![0, 0, 1]), st(Sqrt, vec![2]), st(DivA, vec![3, 1])] }, vec![1.25, 2.5]),
     ]
 }
@@ -301,7 +303,7 @@ fn main() {
         mode: cli.mode,
         seed: cli.seed,
         start,
-        rule: "breadth-first exploration of ALL straight-line programs over the operation alphabet (66 operations: functions, powers, scalar and compound-assignment forms, borrowed forms, atan2, powd, mul_add, iterator sum/product) on registers {x0, x1, lifted constant, earlier results}, any register may be re-used (DAGs, r op= r); quick: length <= 2 over the full alphabet (the last step must read the newest register; otherwise its value is that of a shorter program), thorough: length 2 full alphabet and length 3 over the one-representative-per-family alphabet; states = register files, de-duplicated by the multiset of register bit patterns; programs whose reference real parts leave the margin-shrunk domain are pruned by the reference; input points include one with a zero and one with large real parts (20, -50); plus iterator sums and products over zero and one items and five scenario programs with large parameters ((1 + x/n)^n with n up to 3e9, x tanh(40x)) on every type. Non-trivial = length >= 2 or a non-zero derivative part.".into(),
+        rule: "breadth-first exploration of ALL straight-line programs over the operation alphabet (66 operations: functions, powers, scalar and compound-assignment forms, borrowed forms, atan2, powd, mul_add, iterator sum/product) on registers {x0, x1, lifted constant, earlier results}, any register may be re-used (DAGs, r op= r); quick: length <= 2 over the full alphabet (the last step must read the newest register; otherwise its value is that of a shorter program), thorough: length 2 full alphabet and length 3 over the one-representative-per-family alphabet; states = register files, de-duplicated by the multiset of register bit patterns; programs whose reference real parts leave the margin-shrunk domain are pruned by the reference; input points include one with a zero and one with large real parts (20, -50); plus iterator sums and products over zero and one items and seven scenario programs with large parameters or arguments next to the end of a domain ((1 + x/n)^n with n up to 3e9, x tanh(40x), acos(1 - x 2^-26)) on every type. Non-trivial = length >= 2 or a non-zero derivative part.".into(),
         assumptions: vec![
             "oracle: the same program in the reference algebra over double-double; acceptance |impl - ref| <= 2 E_out with the propagated first-order bound of DESIGN 2.5".into(),
             "inputs carry generic independent parts of every order; real parts are grid points".into(),
